@@ -261,6 +261,44 @@ static void long_stream_renorm_scenario(void)
     LZ4_freeStream(fs); free(big[0]); free(big[1]); free(blk[0]); free(blk[1]); free(dst); free(out);
 }
 
+/* ---- C18: a history of LZ4_compress_fast_extState_fastReset calls on ONE state (the documented use of _fastReset), recorded whole (op 11) so that the
+ * Lean model of the reused state (Model/FastR.lean: LZ4_prepareTable, dictSmall, 16-bit table) replays it; every block must decode with NO history.
+ * Inputs: log-like records sharing long prefixes, laid out back to back in one buffer (what precedes an input in memory resembles it), sizes mostly
+ * below 4 KB (table kept), sometimes 0, 12, 13, around 4 KB and around the 64 KB limit (table type switches / resets). ---- */
+static u64 n_fr_hist, n_fr_calls, n_fr_kept;
+static void fastreset_history(void)
+{
+    enum { MAXC = 13 };
+    LZ4_stream_t* st = LZ4_createStream(); int nc = 2 + (int)rndn(MAXC - 1), k; rec_t r; size_t total = 0, off = 0; u8* arena; size_t sz[MAXC]; u8* outs[MAXC]; int rets[MAXC], accs[MAXC], caps[MAXC];
+    static const size_t special[] = {0, 1, 12, 13, 14, 4095, 4096, 4097, 65535, 65546, 65547, 66000};
+    static const char* const pre[] = {"2026-09-26T12:00:", "GET /index.html?id=", "user=alice action=", "ERROR timeout while ", "", "aaaaaaaaaaaaaaaaaaaaaaaa"};
+    for (k = 0; k < nc; k++) { sz[k] = rndp(78) ? 20 + rndn(rndp(70) ? 900 : 3900) : special[rndn(12)]; total += sz[k]; }
+    arena = xalloc(total + 1);
+    rec_begin(&r, 11); rec_int(&r, nc);
+    for (k = 0; k < nc; k++) {
+        u8* src = arena + off; size_t n = sz[k], i = 0; int bound = LZ4_compressBound((int)n), cap, acc = (int[]){1, 1, 1, 2, 5, 0, 70000}[rndn(7)], ret, d; u8* dst; u8* chk;
+        while (i < n) { const char* p = pre[rndn(6)]; size_t l = strlen(p), m; if (l > n - i) l = n - i; memcpy(src + i, p, l); i += l; m = rndn(40); while (m-- && i < n) src[i++] = rndp(60) ? (u8)('0' + rndn(10)) : (u8)rnd(); if (i < n) src[i++] = '\n'; }
+        if (k > 0 && n >= 16 && rndp(40)) { size_t from = rndn((u32)off), l = 8 + rndn(200); if (l > n) l = n; if (from + l > off) l = off - from; memcpy(src + rndn((u32)(n - l + 1)), arena + from, l); }   /* a piece of an earlier input */
+        cap = rndp(70) ? bound : rndp(50) ? bound + (int)rndn(20) : (int)rndn((u32)bound + 1);
+        dst = xalloc((size_t)(cap > 0 ? cap : 0));
+        { u32 before = st->internal_donotuse.currentOffset; (void)before; }
+        ret = LZ4_compress_fast_extState_fastReset(st, (const char*)src, (char*)dst, (int)n, cap, acc); n_calls++; n_fr_calls++;
+        rets[k] = ret; accs[k] = acc; caps[k] = cap; outs[k] = dst;
+        rec_bytes(&r, src, n); rec_int(&r, acc); rec_int(&r, cap); rec_int(&r, ret); rec_bytes(&r, dst, ret > 0 && ret <= cap ? (size_t)ret : 0);
+        cur_set(&r);
+        if (ret < 0 || ret > cap) c_fail(&r, "ret_gt_cap");
+        else if (ret == 0 && cap >= bound) c_fail(&r, "fastReset_failed_at_bound");
+        else if (ret > 0) { chk = xalloc(n); d = LZ4_decompress_safe((const char*)dst, (char*)chk, ret, (int)n); n_blocks++;
+            if (d != (int)n || (n && memcmp(chk, src, n) != 0)) c_fail(&r, "block_does_not_decode_against_history"); free(chk); }
+        cur_clear();
+        off += n;
+    }
+    rec_write(&r); n_fr_hist++;
+    for (k = 0; k < nc; k++) free(outs[k]);
+    (void)rets; (void)accs; (void)caps;
+    free(arena); LZ4_freeStream(st);
+}
+
 static void ring_restart_scenario(int family)
 {
     static u8 keys[64][8]; static int keysInit = 0; size_t rec = 12, bs, ring, s0, pos, k; int nblocks, i; u8* ringbuf; u8* dst;
@@ -301,9 +339,10 @@ int main(int argc, char** argv)
     for (i = 0; i < nh; i++) run_history(i % 2, 20 + (int)rndn(40), mode, dictbuf);
     if (!strcmp(mode, "c11")) for (i = 0; i < (thorough ? 3000 : 200); i++) ring_restart_scenario(i % 4 == 3);
     if (!strcmp(mode, "c11")) { int reps = thorough ? 3 : 1; while (reps--) long_stream_renorm_scenario(); }
+    if (!strcmp(mode, "c18")) for (i = 0; i < (thorough ? 20000 : 1500); i++) fastreset_history();
     harness_done();
     stat_u("calls", n_calls); stat_u("blocks_checked", n_blocks); stat_u("limited_output_failures", n_fail_ret0); stat_u("saveDict", n_saves); stat_u("loadDict", n_loads); stat_u("attach", n_attach);
-    stat_u("resets", n_resets); stat_u("fastReset_oneshots", n_oneshots); stat_u("continue_destSize", n_destsize); stat_u("ring_wraps", n_wraps); stat_u("streams_beyond_2GiB", n_renorm); stat_u("records", g_nrecords);
+    stat_u("resets", n_resets); stat_u("fastReset_oneshots", n_oneshots); stat_u("continue_destSize", n_destsize); stat_u("ring_wraps", n_wraps); stat_u("streams_beyond_2GiB", n_renorm); stat_u("fastReset_histories", n_fr_hist); stat_u("fastReset_history_calls", n_fr_calls); stat_u("records", g_nrecords);
     stat_u("cfails", (u64)g_cfails);
     free(dictbuf); free(g_hist); free(g_ring);
     return g_cfails ? 1 : 0;
